@@ -1,13 +1,21 @@
 #!/bin/bash
-# Re-confirms every stored seeded change against the CURRENT checks (detection-power regression):
-# for each /verif/seeded/<name>: scratch worktree + patch + repo suite + demo + the property's own quick check.
-# Prints one line per seed; exit 1 if any confirmed seed is no longer detected.
+# Re-confirms every stored seeded change against the CURRENT checks and the CURRENT /repo HEAD (detection-power regression):
+# for each /verif/seeded/<name>: scratch worktree + patch + repo suite + demo + the quick checks that were recorded as detecting it
+# (meta.json check_results with exit 1; the property's own check if none is recorded).
+# Usage: tools/reseed_all.sh [parallel jobs, default 3] [name filter regex]
+# Prints one line per seed; exit 1 if any seed does not apply, is not confirmed or is no longer detected.
 cd "$(dirname "$0")/.."
+J="${1:-3}"; F="${2:-.}"
+one() {
+  d="seeded/$1"; n="$1"
+  p=$(python3 -c "import json;print(json.load(open('$d/meta.json'))['breaks_property'])")
+  c=$(python3 -c "import json;m=json.load(open('$d/meta.json'));r=[k for k,v in m.get('check_results',{}).items() if v.get('exit')==1];print(','.join(r) if r else m['breaks_property'])")
+  out=$(QV_NPROC=8 tools/seedtest.py "$d" "$n" "$p" --checks "$c" 2>&1 | tail -1 | cut -c1-200)
+  echo "$n $p checks=$c $out"
+}
+export -f one
+ls seeded | grep -E "$F" | xargs -P "$J" -I{} bash -c 'one {}' | tee /tmp/reseed_all.$$.log
 bad=0
-for d in seeded/*/; do
-  n=$(basename "$d"); p=$(python3 -c "import json;print(json.load(open('$d/meta.json'))['breaks_property'])")
-  out=$(tools/seedtest.py "$d" "$n" "$p" --checks "$p" 2>&1 | tail -1)
-  echo "$n $p $out"
-  case "$out" in *"detected_by=['$p'"*) ;; *) bad=1;; esac
-done
+grep -qE "detected_by=\[\]|confirmed=False|PATCH DOES NOT|missing" /tmp/reseed_all.$$.log && bad=1
+rm -f /tmp/reseed_all.$$.log
 exit $bad
